@@ -321,6 +321,10 @@ class _P(object):
         if self.tok == ('op', '+'):
             self.next()
             return self.unary()
+        if self.tok in (('op', '*'), ('op', '&')):      # pointer deref / address-of: not arithmetic
+            op = self.tok[1]
+            self.next()
+            return '(%s%s)' % (op, self.unary())
         return self.postfix()
 
     def postfix(self):
@@ -334,10 +338,9 @@ class _P(object):
         elif (k, v) == ('op', '('):
             inner = self.raw_until_close('(')
             # a C cast "(T)(e)" produced by R-cast: keep the type, parse the operand
-            if re.match(r'^\s*[A-Za-z_][\w ]*\*?\s*$', inner) and self.tok == ('op', '(') and \
-                    re.match(r'^\s*(?:unsigned |signed |const )*(?:[A-Za-z_]\w*)\s*\*?\s*$', inner) and _is_type(inner):
+            if _is_type(inner) and self.tok == ('op', '('):
                 arg = self.raw_until_close('(')
-                base = '((%s)(%s))' % (inner.strip(), arg)
+                base = '((%s)(%s))' % (inner.strip(), _P(arg).full())
             else:
                 base = '(%s)' % _P(inner).full()
         else:
@@ -425,6 +428,82 @@ class UF(object):
         return new
 
 
+class UFArgs(object):
+    """rewrite the arithmetic inside every argument of calls  name(args)  (name matched by
+    the regex `names`) to UF form.  skip = argument positions that are not value-typed."""
+    early = False
+
+    def __init__(self, names, count='+', skip=()):
+        self.names = names
+        self.count = count
+        self.skip = set(skip)
+        self.pat = 'UFArgs ' + names
+
+    def apply(self, text, log, generic=False):
+        pat = re.compile(r'(?<![\w.>])(?:%s)\s*\(' % self.names)
+        out = []
+        i = 0
+        n = 0
+        fired = []
+        while True:
+            m = pat.search(text, i)
+            if not m:
+                out.append(text[i:])
+                break
+            k = m.end() - 1
+            e = match_close(text, k)
+            args = _split_args(text[k + 1:e])
+            new = []
+            for j, a in enumerate(args):
+                if j in self.skip or not a.strip():
+                    new.append(a.strip())
+                else:
+                    new.append(uf_expr(a))
+            out.append(text[i:k] + '(' + ', '.join(new) + ')')
+            fired.append(text[m.start():e + 1])
+            i = e + 1
+            n += 1
+        ok = (n >= 1) if self.count == '+' else (self.count is None or n == self.count)
+        if not ok:
+            raise ExtractError('UFArgs rule %r fired %d times, expected %s' % (self.names, n, self.count))
+        log.append({'rule': 'R-arith args of ' + self.names, 'fired': n, 'calls': fired[:20]})
+        return ''.join(out)
+
+
+class Cmp(object):
+    """comparisons between scalar-valued atoms -> uninterpreted predicates:
+    a < b -> UF_LESS(a,b); a > b -> UF_LESS(b,a); a <= b -> UF_LE(a,b); a >= b -> UF_LE(b,a).
+    `atom` is a regex for the scalar-valued operands of the unit (names, math_norm(x), ...)."""
+    early = False
+
+    def __init__(self, atom, count='+'):
+        self.atom = atom
+        self.count = count
+        self.pat = 'Cmp ' + atom
+
+    def apply(self, text, log, generic=False):
+        rx = re.compile(r'(?P<a>%s)\s*(?P<op><=|>=|<|>)\s*(?P<b>%s)' % (self.atom, self.atom))
+        fired = []
+
+        def sub(m):
+            a, b, op = m.group('a'), m.group('b'), m.group('op')
+            fired.append(m.group(0))
+            if op == '<':
+                return 'UF_LESS(%s, %s)' % (a, b)
+            if op == '>':
+                return 'UF_LESS(%s, %s)' % (b, a)
+            if op == '<=':
+                return 'UF_LE(%s, %s)' % (a, b)
+            return 'UF_LE(%s, %s)' % (b, a)
+
+        new, n = rx.subn(sub, text)
+        ok = (n >= 1) if self.count == '+' else (self.count is None or n == self.count)
+        if not ok:
+            raise ExtractError('Cmp rule fired %d times, expected %s' % (n, self.count))
+        log.append({'rule': 'R-cmp scalar comparisons -> UF_LESS/UF_LE', 'fired': n, 'sites': fired})
+        return new
+
+
 # ----------------------------------------------------------------------------
 # loop contracts, keyed by the text of the loop header in the *repository* text
 # ----------------------------------------------------------------------------
@@ -435,10 +514,15 @@ class Loop(object):
     clauses: the __CPROVER_ loop contract clauses.
     """
 
-    def __init__(self, header, clauses, nth=None):
+    def __init__(self, header, clauses, nth=None, prefix=False):
         self.header = header
         self.clauses = clauses
         self.nth = nth
+        # prefix=True: `header` is a REGEX matched at the loop keyword (for/while); the
+        # clauses are placed after the balanced (...) group that follows the keyword, so
+        # that a changed loop condition keeps its contract (and then fails an obligation)
+        # instead of breaking extraction
+        self.prefix = prefix
 
 
 def _ws_regex(lit):
@@ -449,7 +533,7 @@ def _ws_regex(lit):
 def mark_loops(text, loops, log):
     marks = {}
     for k, lp in enumerate(loops):
-        ms = list(re.finditer(_ws_regex(lp.header), text))
+        ms = list(re.finditer(lp.header if lp.prefix else _ws_regex(lp.header), text))
         if not ms:
             raise ExtractError('loop header not found: %s' % lp.header)
         if lp.nth is None:
@@ -460,6 +544,14 @@ def mark_loops(text, loops, log):
             if lp.nth >= len(ms):
                 raise ExtractError('loop header occurs only %d times: %s' % (len(ms), lp.header))
             m = ms[lp.nth]
+        if lp.prefix:
+            kw = re.compile(r'\b(?:for|while)\s*\(').match(text, m.start())
+            if not kw:
+                raise ExtractError('prefix loop header must start at for/while: %s' % lp.header)
+            end = match_close(text, kw.end() - 1) + 1
+            marks[k] = end
+            log.append({'rule': 'loop-contract attached', 'header': ' '.join(text[m.start():end].split()), 'nth': lp.nth})
+            continue
         marks[k] = m.end()
         log.append({'rule': 'loop-contract attached', 'header': lp.header, 'nth': lp.nth})
     # insert from the back so offsets stay valid
